@@ -49,8 +49,8 @@ ASSUMPTIONS = [
     'np.linalg.inv returns the inverse (model: adjugate / determinant), exactly for scaled signed permutation '
     'matrices with power-of-two spacings, to 2^-40 relative otherwise',
     'padding is one constant value (modes CONSTANT, MINIMUM, MAXIMUM); other modes: overlap clause by the oracle only',
-    'tolerances are >= 0 or None (with a negative atol np.isclose still accepts identical entries through its `x == y` term; '
-    'run once on the real code: geometry_equal(g, g, tol=-1.0) is True; the model has no such term and the generator draws no negative tolerance)',
+    'np.isclose accepts identical entries whatever atol is (its `x == y` term; geometry_equal(g, g, tol=-1.0) is True): modelled since '
+    'audit 2 (closeEntry), the geq and rel streams draw a negative tolerance too',
 ]
 MODELLED_NOT_VERIFIED = ['numpy transpose / pad / basic slicing', 'np.linalg.inv, np.dot in float64',
                          'Volume / VolumeGeometry constructors (orthogonality test of the affine)',
@@ -686,10 +686,12 @@ def gen_geq(ctx, i):
     h = copy_geom(g)
     kind = r.choice(['same', 'shape', 'cs', 'for-diff', 'for-none-a', 'for-none-b', 'for-none-both', 'entry', 'entry', 'entry',
                      'entry-exact', 'two'])
-    tolk = r.choice(['default', 'default', 'none', '1e-3', '0'])
-    tol = {'default': TOL, 'none': None, '1e-3': F(1, 1000), '0': F(0)}[tolk]
+    tolk = r.choice(['default', 'default', 'none', '1e-3', '0', '-1e-3'])
+    tol = {'default': TOL, 'none': None, '1e-3': F(1, 1000), '0': F(0), '-1e-3': -F(1, 1000)}[tolk]
     expect = True
     info = {'kind': kind, 'tol': tolk}
+    if tol is not None and tol < 0 and kind in ('entry', 'two'):
+        kind = info['kind'] = 'entry-exact'        # no boundary to aim at: identical entries pass (np.isclose: `| x == y`), others by the inequality
     if kind == 'shape':
         a = r.randrange(3)
         h['shape'][a] += r.choice([1, -1]) if h['shape'][a] > 1 else 1
@@ -758,8 +760,8 @@ def exact_geq(g, h, tol):
     for x, y in zip(ga, ha):
         bound = tolf + F(1e-5) * abs(y)
         d = abs(x - y)
-        if bound == 0 or d == 0:
-            margins.append(F(0) if d == 0 else F(10 ** 9))
+        if bound <= 0 or d == 0:
+            margins.append(F(0) if d == 0 else F(10 ** 9))     # identical entries always pass (np.isclose has `| x == y`)
         else:
             margins.append(d / bound)
     return all(m <= 1 for m in margins), margins
@@ -1328,7 +1330,9 @@ def run_rel_case(ctx, i, reqs, pending):
     g['exact'] = True
     kind = r.choice(['refl', 'refl-copy', 'asym', 'asym', 'sym-abs', 'sym-none', 'trans', 'trans', 'for-trans'])
     tolk = r.choice(['default', 'default', '1e-3', '0']) if kind != 'sym-none' else 'none'
-    tol = {'default': TOL, 'none': None, '1e-3': F(1, 1000), '0': F(0)}[tolk]
+    if kind in ('refl', 'refl-copy') and r.random() < 0.3:
+        tolk = '-1e-3'
+    tol = {'default': TOL, 'none': None, '1e-3': F(1, 1000), '0': F(0), '-1e-3': -F(1, 1000)}[tolk]
     kw = {} if tolk == 'default' else {'tol': (None if tol is None else float(tol))}
     case = {'stream': 'rel', 'index': i, 'seed': ctx.seed, 'info': {'kind': kind, 'tol': tolk}}
     mk = r.choice([make_geometry, lambda x: make_volume(x, np.zeros(x['shape'], np.int16), r.choice([0, 2]))])
@@ -1488,9 +1492,176 @@ def run_v2vinv_case(ctx, i, reqs, pending):
             ctx.fail(base, {'what': 'there and back between the two volumes is not the identity on points'}, site='v2v/mapping')
 
 
+
+# ------------------------------------------------------------------------------------------ stream: derived objects and their own maps
+def _use_maps(obj, other, r):
+    """ask an object for its reference <-> index maps in one of the ways the library offers (read-only queries)"""
+    from highdicom.volume import VolumeToVolumeTransformer
+    how = r.choice(['inverse_affine', 'map_reference_to_indices', 'transformer_into', 'transformer_from', 'all'])
+    pts = np.array([[0.0, 0.0, 0.0], [1.0, 2.0, 3.0]])
+    if how in ('inverse_affine', 'all'):
+        obj.inverse_affine
+    if how in ('map_reference_to_indices', 'all'):
+        obj.map_reference_to_indices(obj.map_indices_to_reference(pts))
+    if how in ('transformer_into', 'all'):
+        VolumeToVolumeTransformer(other, obj)(pts)
+    if how in ('transformer_from', 'all'):
+        VolumeToVolumeTransformer(obj, other)(pts)
+    return how
+
+
+def _derive(obj, g, r):
+    """(child object, its exact geometry, route) by one of the library's ways of deriving an object without resampling"""
+    n = g['shape']
+    idx = np.zeros(n, dtype=np.int8)
+    routes = ['getitem-crop', 'getitem-stride', 'getitem-negstride', 'flip', 'permute', 'pad', 'crop_to', 'pad_to', 'copy', 'match',
+              'match', 'get_geometry', 'swap', 'int-index']
+    if not hasattr(obj, 'array'):
+        routes = [x for x in routes if x != 'get_geometry']
+    route = r.choice(routes)
+    if route in ('getitem-crop', 'getitem-stride', 'getitem-negstride', 'int-index'):
+        sls, pyidx = [], []
+        for a in range(3):
+            st = r.randrange(n[a])
+            sp = r.randint(st + 1, n[a])
+            if route == 'int-index' and a == 0:
+                sls.append((st, st + 1, 1))
+                pyidx.append(st)
+            elif route == 'getitem-negstride':
+                step = -r.choice([1, 2])
+                sls.append((sp - 1, st - 1, step))
+                pyidx.append(slice(sp - 1, st - 1 if st > 0 else None, step))
+            else:
+                step = 1 if route != 'getitem-stride' else r.choice([1, 2, 3])
+                sls.append((st, sp, step))
+                pyidx.append(slice(st, sp, step))
+        h, _ = op_slice(g, idx, sls)
+        return obj[tuple(pyidx)], h, route
+    if route == 'flip':
+        axes = [a for a in range(3) if r.random() < 0.5] or [r.randrange(3)]
+        h, _ = op_slice(g, idx, [(n[a] - 1, -1, -1) if a in axes else (0, n[a], 1) for a in range(3)])
+        return obj.flip_spatial(axes), h, route
+    if route in ('permute', 'swap'):
+        if route == 'swap':
+            a, b = r.sample(range(3), 2)
+            p = [0, 1, 2]
+            p[a], p[b] = b, a
+            h, _ = op_permute(g, idx, p)
+            return obj.swap_spatial_axes(a, b), h, route
+        p = list(r.choice(list(itertools.permutations(range(3)))))
+        h, _ = op_permute(g, idx, p)
+        return obj.permute_spatial_axes(p), h, route
+    if route in ('pad', 'pad_to'):
+        if route == 'pad':
+            pads = [(r.choice([0, 1, 2]), r.choice([0, 1, 2])) for _ in range(3)]
+            h, _ = op_pad(g, idx, pads)
+            return obj.pad([list(p) for p in pads]), h, route
+        extra = [r.choice([0, 1, 2, 3]) for _ in range(3)]
+        pads = [(e // 2, e - e // 2) for e in extra]
+        h, _ = op_pad(g, idx, pads)
+        return obj.pad_to_spatial_shape([n[a] + extra[a] for a in range(3)]), h, route
+    if route == 'crop_to':
+        tgt = [r.randint(1, n[a]) for a in range(3)]
+        sls = [((n[a] - tgt[a]) // 2, (n[a] - tgt[a]) // 2 + tgt[a], 1) for a in range(3)]
+        h, _ = op_slice(g, idx, sls)
+        return obj.crop_to_spatial_shape(tgt), h, route
+    if route == 'copy':
+        return obj.copy(), copy_geom(g), route
+    if route == 'get_geometry':
+        return obj.get_geometry(), copy_geom(g), route
+    # match_geometry to a target derived by a short chain (the crop step on an unpadded, unpermuted source included)
+    tg, _, ops = random_chain(r, copy_geom(g), np.zeros(n, dtype=np.int64), r.choice([1, 1, 2]))
+    return obj.match_geometry(make_geometry(tg)), tg, 'match:' + '+'.join(o.split(':')[0] for o in ops)
+
+
+def _check_own_maps(ctx, case, obj, g, who, exact):
+    """the object's reference <-> index maps must be those of its OWN affine (exact geometry g)"""
+    from highdicom.volume import VolumeToVolumeTransformer
+    n = g['shape']
+    ks = [[0, 0, 0], [n[0] - 1, n[1] - 1, n[2] - 1], [(n[0] - 1) // 2, 0, n[2] - 1], [-1, 3, 0]]   # the last one lies outside
+    refs = [to_ref(g, k) for k in ks]
+    tolv = F(0) if exact else F(1, 10 ** 7)
+    rp = np.array([[float(v) for v in P] for P in refs], dtype=np.float64)
+    ok = True
+    st, out = _call(obj.map_reference_to_indices, rp)
+    if st != 'ok' or any(abs(F(float(o[a])) - k[a]) > tolv * max(1, abs(k[a])) for k, o in zip(ks, np.asarray(out).reshape(-1, 3)) for a in range(3)):
+        ctx.fail(dict(case, who=who), {'what': 'map_reference_to_indices of a derived object does not invert its own affine',
+                                       'got': None if st != 'ok' else np.asarray(out).tolist(), 'want': ks}, site='derive/ref2idx')
+        ok = False
+    inv = np.asarray(obj.inverse_affine)
+    prod = inv @ obj.affine
+    if not np.allclose(prod, np.eye(4), rtol=0, atol=1e-9):
+        ctx.fail(dict(case, who=who), {'what': 'inverse_affine of a derived object is not the inverse of its own affine'}, site='derive/inverse')
+        ok = False
+    ident = make_geometry(g)          # a fresh object with the same exact geometry
+    st, out = _call(VolumeToVolumeTransformer(ident, obj, round_output=False, check_bounds=True), np.array(ks[:3], dtype=np.float64))
+    if st != 'ok' or any(abs(F(float(o[a])) - k[a]) > tolv * max(1, abs(k[a])) for k, o in zip(ks[:3], np.asarray(out).reshape(-1, 3)) for a in range(3)):
+        ctx.fail(dict(case, who=who), {'what': 'transformer into a derived object does not map through the object\'s own affine '
+                                               '(voxel centres of the object refused or moved)',
+                                       'got': out if st != 'ok' else np.asarray(out).tolist(), 'want': ks[:3]}, site='derive/v2v')
+        ok = False
+    return ok
+
+
+def run_derive_case(ctx, i, reqs, pending):
+    """One object, a history: its maps are used (inverse_affine / map_reference_to_indices / transformers) BEFORE or AFTER children
+    are derived from it (indexing, flip, permute, swap, pad, to-shape, copy, get_geometry, match_geometry), also grandchildren;
+    every object's maps must be those of its own affine, whatever was asked of its relatives before."""
+    r = ctx.rng('derive', i)
+    g = random_source(r)
+    if r.random() < 0.7:
+        g['dir'] = [list(d) for d in r.choice(SP)]
+        g['spacing'] = [r.choice([F(1, 4), F(1, 2), F(1), F(2), F(4)]) for _ in range(3)]
+        g['pos'] = [F(r.randint(-64, 64), r.choice([1, 2, 4])) for _ in range(3)]
+        g['exact'] = True
+    g['shape'] = [max(2, x) for x in g['shape']]
+    kind = r.choice(['volume', 'volume', 'volume-channels', 'geometry'])
+    arr = np.arange(1, int(np.prod(g['shape'])) + 1, dtype=np.int32).reshape(g['shape'])
+    root = make_geometry(g) if kind == 'geometry' else make_volume(g, arr, 2 if kind == 'volume-channels' else 0)
+    other = make_geometry(random_source(r))
+    order = r.choice(['use-then-derive', 'derive-then-use', 'use-derive-use'])
+    case = {'stream': 'derive', 'index': i, 'seed': ctx.seed, 'kind': kind, 'order': order, 'routes': []}
+
+    def pow2(q):
+        return q > 0 and (q.numerator & (q.numerator - 1)) == 0 and (q.denominator & (q.denominator - 1)) == 0
+    objs = [(root, g, 'root')]
+    used = []
+    if order in ('use-then-derive', 'use-derive-use'):
+        used.append(_use_maps(root, other, r))
+    cur, cg = root, g
+    for depth in range(r.choice([1, 1, 2, 3])):
+        try:
+            child, hg, route = _derive(cur, cg, r)
+        except Exception as e:  # noqa: BLE001
+            ctx.fail(case, {'what': f'deriving an object was refused: {type(e).__name__}: {e}'[:300], 'routes': case['routes']}, site='derive/refused')
+            break
+        case['routes'].append(route)
+        objs.append((child, hg, f'child{depth + 1}:{route}'))
+        if order == 'use-derive-use' and r.random() < 0.6:
+            used.append(_use_maps(child, other, r))
+        cur, cg = child, hg
+    if order == 'derive-then-use':
+        # the youngest first, the root last: a cache filled by a descendant must not reach the ancestors either
+        for o, _, _ in reversed(objs):
+            used.append(_use_maps(o, other, r))
+    case['used'] = used
+    all_ok = True
+    for o, og, who in (objs if r.random() < 0.5 else list(reversed(objs))):
+        exact = bool(og.get('exact')) and all(F(float(v)) == v for v in affine12(og)) and all(pow2(q) for q in og['spacing'])
+        all_ok &= _check_own_maps(ctx, case, o, og, who, exact)
+    ctx.case(sample=case if i % 43 == 0 else None,
+             nontrivial_key=('derive', kind, order, tuple(x.split(':')[0] for x in case['routes']), tuple(used)), stream='derive',
+             derive_order=order, derive_kind=kind, outcome='ok' if all_ok else 'own maps wrong',
+             derive_route='>'.join(x.split(':')[0] for x in case['routes']) or 'none')
+    for x in case['routes']:
+        ctx.hist('derive_step', x.split(':')[0])
+    for u in used:
+        ctx.hist('maps_used_by', u)
+
+
 STREAMS = {'chain': run_chain_case, 'perturb': run_perturb_case, 'geq': run_geq_case, 'v2v': run_v2v_case,
            'v2vdt': run_v2vdt_case, 'v2vhist': run_v2vhist_case, 'padspell': run_padspell_case, 'rel': run_rel_case,
-           'v2vinv': run_v2vinv_case}
+           'v2vinv': run_v2vinv_case, 'derive': run_derive_case}
 
 
 def _resolve(ctx, reqs, pending):
@@ -1543,7 +1714,7 @@ def run(ctx, only=None):
         run_slice_grid(ctx, reqs, pending)
     budget = {'chain': ctx.n(1000, 12000), 'perturb': ctx.n(800, 9000), 'geq': ctx.n(1000, 10000), 'v2v': ctx.n(500, 5000),
               'v2vdt': ctx.n(600, 6000), 'v2vhist': ctx.n(500, 5000), 'padspell': ctx.n(200, 2000), 'rel': ctx.n(300, 3000),
-              'v2vinv': ctx.n(250, 2500)}
+              'v2vinv': ctx.n(250, 2500), 'derive': ctx.n(400, 4000)}
     for stream, fn in STREAMS.items():
         if only is not None and only[0] != stream:
             continue
